@@ -418,7 +418,8 @@ pub fn layouts(seed: u64, count: u64, outdir: &str, big: bool, ops_path: Option<
     let mut out = Outcome { ops: 0, histories: 0, hist: Default::default(), distinct: Default::default(), violations: vec![] };
     for k in 0..count {
         let mut r = rng.fork();
-        let tree = gen_tree(&mut r, if big { 40 } else { 14 }, big);
+        let max_entries = if big { 40 } else if r.chance(1, 3) { 26 } else { 14 };
+        let tree = gen_tree(&mut r, max_entries, big);
         let cfg = LayoutCfg { v4: r.chance(1, 2), wrap_to_zero: r.chance(1, 3), free_gaps: r.chance(2, 3), extra_dir_sector: r.chance(1, 4) };
         let img = build(&tree, &cfg, &mut r);
         let path = format!("{}/L{}.cfb", outdir, k);
